@@ -65,6 +65,8 @@ def run(ctx):
         "impl_s": dict(module="HkdfImpl", cfg="HkdfImpl_MC_S.cfg", workers=2, coverage=True, note="refinement HkdfImpl => HkdfReader, H=2, byte modulus 6 (MaxBlocks 5), all read sizes 0..12"),
         "impl_r4q": dict(module="HkdfImpl_MC", cfg="HkdfImpl_MC_R4q.cfg", workers=3, note="refinement with the real byte modulus 256, H=4, positions within 12 of the start or 20 of the limit, 16 read sizes"),
         "kdf": dict(module="Kdf_MC", cfg="Kdf_MC_%s.cfg" % T, workers=ctx.pick(5, 8), note="HKDF/PBKDF2 over the toy hash: model-level laws + emitted values"),
+        "alias": dict(module="HkdfImpl", cfg="HkdfImpl_MC_Alias.cfg", workers=2, count=False, expect_violation=True,
+                      note="documented counterexample: design that appends the MAC output into the caller's slice; must violate AbsContiguous via Scribble"),
         "gen": dict(module="HkdfReader_Gen", cfg="HkdfReader_Gen_D%d.cfg" % D, workers=1, count=False,
                     note="all Read histories of depth %d over 12 sizes, five hash sizes in lock step" % D),
     }
@@ -77,6 +79,11 @@ def run(ctx):
         futs = {k: ex.submit(ctx.tlc, timeout=ctx.pick(600, 2400), **kw) for k, kw in jobs.items()}
         for k, f in futs.items():
             res[k] = f.result()
+    ra = res.pop("alias")
+    if ra.ok or ra.violated != "Abs!Contiguous" or "Scribble" not in (ra.cex or ""):
+        raise vlib.Infra("HkdfImpl_MC_Alias.cfg: the caller-buffer design no longer yields the Scribble counterexample "
+                         "(model would be blind to a reader that retains the caller's buffer): %r" % (ra.violated,))
+    ctx.log("alias: expected counterexample (%s after Scribble) found" % ra.violated)
     for k, r in res.items():
         if not r.ok:      # a counterexample in the design model alone is never a verdict
             raise vlib.Infra("design model %s: %s violated:\n%s" % (k, r.violated, (r.cex or r.raw[-3000:])[:6000]))
@@ -89,6 +96,9 @@ def run(ctx):
     hist = res["gen"].traces
     if len(hist) < 5000:
         raise vlib.Infra("history generator produced too little")
+    for h in (3, 4, 20, 32, 64):
+        if len([x for x in hist if x["h"] == h and x.get("bnd")]) < 50:
+            raise vlib.Infra("history generator: too few histories with 'Read ends on a block boundary, then a further block' for H=%d" % h)
     if ctx.replay:
         d = json.load(open(ctx.replay))["violation"]["detail"] or {}
         if d.get("reads") and d.get("source") == "tlc-history":
@@ -101,5 +111,10 @@ def run(ctx):
     r = ctx.go_test("c18", "TestReplay", cases=cp, timeout=ctx.pick(300, 1200))
     ctx.log("replay: %d evaluations, %d violations" % (r.get("evaluations", 0), len(r.get("violations") or [])))
     ctx.absorb(r)
+    per = (r.get("extra") or {}).get("boundary_scribble_newblock_replays_per_hash") or {}
+    missing = [h for h in ("toy3", "toy4", "sha1", "sha256", "sha384", "sha512") if not per.get(h)]
+    if missing and not ctx.replay and not (r.get("violations") or []):
+        raise vlib.Infra("vacuity: no replay with 'Read ending on a block boundary, caller buffer overwritten, further Read generating a "
+                         "new block' for %s" % missing)
     ctx.exhaustive = True
     ctx.notes.append("exhaustive over the Read-size alphabet and depth; input byte strings sampled")
